@@ -140,6 +140,7 @@ type Case struct {
 	Clock    int64          `json:"clock"`
 	MapSeed  uint64         `json:"mapseed"`
 	Hostile  bool           `json:"hostile,omitempty"`
+	BaseFile uint32         `json:"basefile,omitempty"` // an empty data file with this id exists before the first Open (the directory of a long-lived database: file ids beyond the varint width boundaries 128 and 16384)
 	Slash    bool           `json:"slash,omitempty"` // the data directory is named with a trailing path separator
 	Crash    *Crash         `json:"crash,omitempty"`
 	Damage   *Damage        `json:"damage,omitempty"`
